@@ -522,6 +522,39 @@ Inductive expr :=
 | ECall (f : string) (args : list expr) (kws : list (string * expr))
 | EMeth (recv : val) (m : string) (args : list expr) (kws : list (string * expr)).
 
+(* evaluation schemes shared by the reference semantics and by the model of the tool: [ev] is the
+   evaluator of sub-expressions *)
+Section Schemes.
+Variable ev : expr -> res val.
+(* left to right; the first failure wins *)
+Fixpoint eval_list (l : list expr) : res (list val) :=
+  match l with
+  | [] => Val []
+  | x :: tl => v <- ev x ;; r <- eval_list tl ;; Val (v :: r)
+  end.
+Fixpoint eval_kws (l : list (string * expr)) : res (list (string * val)) :=
+  match l with
+  | [] => Val []
+  | (n, x) :: tl => v <- ev x ;; r <- eval_kws tl ;; Val ((n, v) :: r)
+  end.
+(* `a and b and ...` / `a or b or ...`: the first operand that decides, else the last; VALUES *)
+Fixpoint boolop_go (isand : bool) (l : list expr) : res val :=
+  match l with
+  | [] => Gap                                          (* not a Python expression *)
+  | [x] => ev x
+  | x :: tl => v <- ev x ;; if Bool.eqb (truthy v) isand then boolop_go isand tl else Val v
+  end.
+(* `prev op1 b1 op2 b2 ...`: every operand evaluated at most once, left to right, stops at the first
+   falsy comparison result, whose value is the value of the chain *)
+Fixpoint cmp_go (prev : val) (l : list (cmpop * expr)) : res val :=
+  match l with
+  | [] => Gap                                          (* not a Python expression *)
+  | [(o, b)] => y <- ev b ;; opfn_apply (cmpop_fn o) prev y
+  | (o, b) :: tl => y <- ev b ;; r <- opfn_apply (cmpop_fn o) prev y ;;
+                    if truthy r then cmp_go y tl else Val r
+  end.
+End Schemes.
+
 Section Eval.
 Variable env : string -> option val.       (* the variables in scope; builtins are not rebound *)
 
@@ -531,42 +564,17 @@ Fixpoint eval (e : expr) : res val :=
   | EName x => match env x with Some v => Val v | None => Exc KName end
   | EUn o a => v <- eval a ;; unop_apply o v
   | EBin o a b => x <- eval a ;; y <- eval b ;; opfn_apply (binop_fn o) x y
-  | EBool isand es =>
-      (fix go (l : list expr) : res val :=
-         match l with
-         | [] => Gap                                    (* not a Python expression *)
-         | [x] => eval x
-         | x :: tl => v <- eval x ;; if Bool.eqb (truthy v) isand then go tl else Val v
-         end) es
-  | ECmp a rest =>
-      x <- eval a ;;
-      (fix go (prev : val) (l : list (cmpop * expr)) : res val :=
-         match l with
-         | [] => Gap                                    (* not a Python expression *)
-         | [(o, b)] => y <- eval b ;; opfn_apply (cmpop_fn o) prev y
-         | (o, b) :: tl => y <- eval b ;; r <- opfn_apply (cmpop_fn o) prev y ;;
-                           if truthy r then go y tl else Val r
-         end) x rest
+  | EBool isand es => boolop_go eval isand es
+  | ECmp a rest => x <- eval a ;; cmp_go eval x rest
   | EIf c a b => v <- eval c ;; if truthy v then eval a else eval b
-  | ETuple es =>
-      l <- (fix go (l : list expr) : res (list val) :=
-              match l with [] => Val [] | x :: tl => v <- eval x ;; r <- go tl ;; Val (v :: r) end) es ;;
-      Val (VTuple l)
-  | EList es =>
-      l <- (fix go (l : list expr) : res (list val) :=
-              match l with [] => Val [] | x :: tl => v <- eval x ;; r <- go tl ;; Val (v :: r) end) es ;;
-      Val (VList l)
+  | ETuple es => l <- eval_list eval es ;; Val (VTuple l)
+  | EList es => l <- eval_list eval es ;; Val (VList l)
   | ECall f args kws =>
-      a <- (fix go (l : list expr) : res (list val) :=
-              match l with [] => Val [] | x :: tl => v <- eval x ;; r <- go tl ;; Val (v :: r) end) args ;;
-      k <- (fix go (l : list (string * expr)) : res (list (string * val)) :=
-              match l with [] => Val [] | (n, x) :: tl => v <- eval x ;; r <- go tl ;; Val ((n, v) :: r) end) kws ;;
-      call_builtin_kw f a k
+      a <- eval_list eval args ;; k <- eval_kws eval kws ;; call_builtin_kw f a k
   | EMeth recv m args kws =>
       (* the attribute is looked up BEFORE the arguments are evaluated *)
       if method_known recv m then
-        a <- (fix go (l : list expr) : res (list val) :=
-                match l with [] => Val [] | x :: tl => v <- eval x ;; r <- go tl ;; Val (v :: r) end) args ;;
+        a <- eval_list eval args ;;
         match kws with [] => call_method recv m a | _ => Gap end
       else Gap
   end.
